@@ -104,16 +104,19 @@
         proof { lemma_link_all(self.parents@); }
 //@ end-fn
 
-//@ end-impl
-
-
-impl<Value: NumericId> UnionFind<Value> {
-    // ASSUMED: `reset` uses `iter_mut().enumerate()` (iterator adapters: outside the Verus subset).
-    // Bounded Kani stand-in: kani harness uf_reset. Every id becomes its own parent again.
-    #[verifier::external_body]
-    pub fn reset(&mut self)
+//@ fn reset
+//@ rewrite R-ITERMUT 0
+//@ at sig
         ensures
             final(self).parents@.len() == old(self).parents@.len(),
             forall|i: int| 0 <= i < final(self).parents@.len() ==> (#[trigger] final(self).parents@[i]).ix() == i,
-    { unimplemented!() }
-}
+//@ at loop 0 spec
+            invariant
+                __j0 <= __n0,
+                __n0 == self.parents@.len(),
+                self.parents@.len() == old(self).parents@.len(),
+                forall|k: int| 0 <= k < __j0 ==> (#[trigger] self.parents@[k]).ix() == k,
+            decreases __n0 - __j0,
+//@ end-fn
+//@ end-impl
+
